@@ -739,7 +739,16 @@ func runC10(p *load.Program, r *core.Report) {
 			var add, pub ssa.Instruction
 			eachInstr(sp, func(in ssa.Instruction) {
 				if callsNamed(in, "AddLink") {
-					add = in
+					// the child->parent link (spawn also makes the parent->child link for LinkChild)
+					c2 := callCommon(in)
+					as := c2.Args
+					if !c2.IsInvoke() {
+						as = as[1:]
+					}
+					_, q0, _ := fieldPath(as[0])
+					if add == nil || (len(q0) > 0 && q0[len(q0)-1] == "pid") {
+						add = in
+					}
 				}
 				cc := callCommon(in)
 				if cc != nil {
